@@ -24,7 +24,7 @@ import mtscomp  # noqa: E402
 PROP = "C02"
 LEVEL = "fault_enumeration"
 TIERS = {
-    "quick": {"runs": 700, "budget_s": 420, "det_pairs": 3},
+    "quick": {"runs": 1500, "budget_s": 420, "det_pairs": 3},
     "thorough": {"runs": 200000, "budget_s": 1500, "det_pairs": 8},
 }
 RUN_TIMEOUT = 600
